@@ -372,7 +372,7 @@ func (e *Environment) SetNoChecks(name string, val Object, create bool) Object {
 	// New name... let's see if it's really new or making it a ref.
 	if ref, ok := e.makeRef(name); ok {
 		log.Debugf("SetNoChecks(%s) created ref %s in %d", name, ref.Name, ref.RefEnv.depth)
-		e.getMiss++ // same as in update(): makeRef does not count a variable that holds a function.
+		e.getMiss++                             // same as in update(): makeRef does not count a variable that holds a function.
 		ref.RefEnv.store[ref.Name] = Value(val) // kinda neat to make aliases but it can create loops, so not for now.
 		if ref.RefEnv.depth == 0 {
 			ref.RefEnv.numSet++ // a global changed, like in update().
